@@ -670,6 +670,9 @@ package larking
 //@   assert atcall `w.Header().Set("Content-Encoding"` #1 [announced-encoding-is-negotiated-and-applied C04] arg2 == acceptEncoding && cz#2 != nil
 //@   assert atcall `w.Header().Set("Content-Encoding"` #2 [identity-only-without-a-pending-compressor C04 C05] zc == nil
 //@   witness verifWitnessGzipError for identity-only-without-a-pending-compressor
+//@   count headerCopies `setOutgoingHeader(w.Header(), stream.header)`
+//@   assert atcall `m.encError(` [header-metadata-reaches-the-client-of-a-failed-call C14] stream#2.sentHeader || headerCopies == 1
+//@   witness verifWitnessHeaderOnError for header-metadata-reaches-the-client
 //@   assert atcall `m.encError(` [error-document-goes-through-the-announced-encoding C04 C05] zc == nil
 //@        || (typeof(arg1) == typeid("compressedWriter") && same(unbox(arg1, "compressedWriter").z, resp))
 //@   witness verifWitnessGzipMidStreamError for error-document-goes-through
